@@ -21,6 +21,7 @@ EXPLANATION = (
     ' K1 requires public (re-assignable) attributes to be read when the key is computed (a snapshot taken in __init__ goes stale), counts helpers that shape the stored payload as part of the region and a public attribute as itself; K2 recognises gzip/bz2/lzma/io open calls and demands EOFError coverage before it calls a compressed reader tolerant.'
     ' (K5) the rows handed to the pipeline are an unmodified copy of the batch the key was computed from.'
     ' (K6) the rows to return are bound before the cache entry is written; (K7) the key hashes a serialisation of the payload itself.'
+    ' (K8) the rows part of the hashed payload is the whole batch, not a projection of its rows. (K9) every value a stage stores in a result row survives a JSON round trip (no tuple / set), followed through locals and tuple-returning callees.'
 )
 ASSUMPTIONS = ["os.replace is atomic on the cache file system", "sha256 collisions are ignored"]
 
